@@ -7,52 +7,30 @@ NOTE = ("Trusted: Coq 8.16.1 kernel and vm_compute; axioms as listed per theorem
         "generated cases; the Rust harness and the Python driver. A broken correspondence or proof is reported as a violation; a concrete "
         "failing input is searched on the implementation first.")
 T = {
- "C01": ("Theorems: Minimum/Maximum return an element of exactly the last min(t,n) inputs with no smaller/greater element in that window, "
-         "for every period, every cursor position and every strict total order with top (C01_min_least, C01_max_greatest); over the exact "
-         "carrier (extended reals) SMA, WMA, SD, MAD, BB equal mean / weighted mean / population variance / mean absolute deviation / mean +- m*sd "
-         "of the last min(t,n) inputs for every stream. Rounding part (tau) validated by T2 on generated streams: partial.",
-         "Rocq proofs (ring-buffer rotation invariant, induction over streams; exact-arithmetic refinement) + bit-exact correspondence + exact-rational tolerance check"),
- "C02": ("Theorems for every number type (bit-exact for binary64): EMA returns its first input and then k*x+(1-k)*prev with k=2/(n+1); TrueRange scalar "
-         "and bar definitions; ATR = EMA(TR), MACD, KC, CE equal the hand wiring of standalone streams for every period combination. Agreement "
-         "of the float recursion with exact evaluation within tau(t): validated by T2 against the exact-rational instance (partial).",
+ "C01": ("Theorems: Minimum/Maximum return an element of exactly the last min(t,n) inputs with no smaller/greater element in that window, for every period, every cursor position and every strict total order with top (C01_min_least, C01_max_greatest), instantiated bit-exactly for binary64 without NaN/-0.0 (C01_float_order via Flocq, C01_min_least_binary64, C01_max_greatest_binary64); over the exact carrier (extended reals) SMA, WMA, SD, MAD, BB equal mean / weighted mean / population variance / mean absolute deviation / mean +- m*sd of the last min(t,n) inputs for every stream; the exact-rational oracle of the tolerance check is proved to be the image of that exact real run (C01_t2_oracle, by parametricity of the interpreter). Rounding part (tau) validated by T2 on generated streams: partial; refuted for WMA (known finding K7).",
+         "Rocq proofs (ring-buffer rotation invariant, induction over streams; exact-arithmetic refinement; Flocq order instance; Paramcoq abstraction theorem) + bit-exact correspondence + exact-rational tolerance check"),
+ "C02": ("Theorems for every number type (bit-exact for binary64): EMA returns its first input and then k*x+(1-k)*prev with k=2/(n+1); TrueRange scalar and bar definitions; ATR = EMA(TR), MACD, KC, CE equal the hand wiring of standalone streams for every period combination. Over exact reals the model's EMA, ATR, MACD and KeltnerChannel streams are the real recursions (C02_ema_exact, closed form C02_ema_closed_form, C02_atr_exact, C02_macd_exact, C02_kc_exact). Agreement of the float recursion with exact evaluation within tau(t): validated by T2 against the exact-rational instance, proved to be the image of the exact real run (partial).",
          "Rocq proofs (stream induction, any carrier) + bit-exact correspondence + exact-rational tolerance check"),
- "C10": ("Theorems for every number type: Next<&T> of the 11 close-only indicators equals Next<f64> on close (Minimum: low, Maximum: high) as an "
-         "equation of state and output; bars agreeing on the documented read-set are indistinguishable; open is never read; DataItem = any other "
-         "implementor. One-price-bar = scalar path for FAST/SLOW/TR/ATR/KC is checked on the implementation (relational) - partial on that component.",
-         "Rocq proofs (definitional equalities over 22 kinds) + bit-exact correspondence + relational checks on the implementation"),
- "C13": ("Theorems: the exact-arithmetic invariants (running state = from-scratch statistic of the current window) are preserved by every step with "
-         "no bound on the stream length; variance never negative; Minimum exact forever. Float drift within tau(t): validated on streams of "
-         "2*10^4 (quick) / 2*10^6 (thorough) inputs generated identically on both sides, against a fresh exact instance on the current window (partial).",
+ "C10": ("Theorems for every number type: Next<&T> of the 11 close-only indicators equals Next<f64> on close (Minimum: low, Maximum: high) as an equation of state and output; bars agreeing on the documented read-set are indistinguishable; open is never read; DataItem = any other implementor. One-price bars: FastStochastic / SlowStochastic take exactly the scalar step for every carrier with symmetric == (proved for binary64 from the float axioms, so bit-exact for every float incl. NaN); TrueRange, ATR, KeltnerChannel over exact reals with finite prices ((x+x+x)/3 = x). On binary64 the TR/ATR/KC one-price equality is checked on the implementation (relational) - partial on that component.",
+         "Rocq proofs (definitional equalities over 22 kinds; float == symmetry; exact-carrier one-price steps) + bit-exact correspondence + relational checks on the implementation"),
+ "C13": ("Theorems: the exact-arithmetic invariants (running state = from-scratch statistic of the current window) are preserved by every step with no bound on the stream length; variance never negative; Minimum exact forever; the exact-rational oracle is the image of the exact real run (C13_t2_oracle). Float drift within tau(t): validated on streams of 2*10^4 (quick) / 2*10^6 (thorough) inputs generated identically on both sides, against a fresh exact instance on the current window (partial); refuted for WMA (K7).",
          "Rocq proofs (unbounded invariants) + twin-generator long-stream correspondence (checkpoints + hash of all outputs) + exact-rational window recomputation"),
  "C15": ("Theorems for every number type (bit-exact): SlowStochastic, ATR, MACD, PPO, KC (scalar and bar), CE, BB (half-width = m*SD, middle = SD's mean), "
          "CCI equal the hand wiring of the standalone streams; over exact reals BB.average = SMA (bb_average_is_sma).",
          "Rocq proofs (stream induction, any carrier) + bit-exact correspondence + composite-vs-public-parts comparison on the implementation"),
- "C17": ("Theorems: over exact reals the last output of SMA, WMA, SD, MAD, BB is a function of the last n inputs (two histories sharing that suffix give "
-         "equal outputs); Minimum exactly, for any strict total order. ROC/ER/MFI/CCI/FAST: implementation-level suffix-vs-full comparison and T1 (partial).",
-         "Rocq proofs (corollaries of the refinement theorems) + bit-exact correspondence + suffix-vs-full comparison on the implementation"),
- "C03": ("Theorems for every number type (bit-exact): RSI = 100U/(U+D) from two EMAs of gains/losses seeded 0.1; FastStochastic = formula on Minimum/Maximum "
-         "(scalar and bar paths), SlowStochastic = EMA(Fast), PPO, CCI, OBV as documented; over exact reals FastStochastic is the formula on the least/greatest "
-         "of exactly the last min(t,n) prices. ROC, ER, MFI formulas and all rounding components: T2 against the exact-rational instance with exact "
-         "condition numbers (partial).",
-         "Rocq proofs (stream induction; order-theoretic window characterisation) + bit-exact correspondence + exact-rational check with condition numbers"),
- "C07": ("Theorems over exact reals (slack 0): FastStochastic in [0,100] on every finite stream; RSI in [0,100] whenever its denominator is non-zero (NaN "
-         "exactly otherwise); SlowStochastic in [0,100]. EfficiencyRatio and MFI ranges and the rounding slack: range predicate on the implementation (partial).",
-         "Rocq proofs (convexity of the EMA recursion, order theorems) + bit-exact correspondence + range predicate on implementation outputs"),
- "C08": ("Theorems: on a flat window MAD = 0, SD = 0, Bollinger bands collapse (exact), FastStochastic returns the literal 50, TrueRange 0. Refuted for "
-         "EfficiencyRatio, RSI, MFI, CCI by vm_compute witnesses on the float model (C08_K3..K6), replayed on the implementation and listed as known "
-         "findings; every other degenerate-window failure is a violation.",
+ "C17": ("Theorems: over exact reals the last output of SMA, WMA, SD, MAD, BB, FastStochastic, CCI is a function of the last n inputs and that of RateOfChange, EfficiencyRatio, MoneyFlowIndex of the last n+1 (two histories sharing that suffix give equal outputs); Minimum and Maximum exactly, for any strict total order, instantiated bit-exactly for binary64 without NaN/-0.0. Float tolerances: implementation-level suffix-vs-full comparison (partial); WMA drift K7.",
+         "Rocq proofs (corollaries of the exact refinement theorems; order theorems) + bit-exact correspondence + suffix-vs-full comparison on the implementation"),
+ "C03": ("Theorems for every number type (bit-exact): RSI = 100U/(U+D) from two EMAs of gains/losses seeded 0.1; FastStochastic = formula on Minimum/Maximum (scalar and bar paths), SlowStochastic = EMA(Fast), PPO, CCI, OBV as documented. Over exact reals: FastStochastic is the formula on the least/greatest of exactly the last min(t,n) prices; RateOfChange, EfficiencyRatio, MoneyFlowIndex and CCI refine their documented ratios over the last n / n+1 inputs, with the IEEE value on a zero denominator (C03_roc, C03_er, C03_mfi, C03_cci_exact and the value lemmas). Rounding components: T2 against the exact-rational instance with exact condition numbers (partial).",
+         "Rocq proofs (stream induction; order-theoretic window characterisation; ring-buffer refinements) + bit-exact correspondence + exact-rational check with condition numbers"),
+ "C07": ("Theorems over exact reals (slack 0): FastStochastic in [0,100] on every finite stream; RSI in [0,100] whenever its denominator is non-zero (NaN exactly otherwise); SlowStochastic in [0,100]; EfficiencyRatio in [0,1] whenever the path length is non-zero (triangle inequality along the path); MFI in [0,100] whenever the window carries flow. Rounding slack: range predicate on the implementation (partial).",
+         "Rocq proofs (convexity of the EMA recursion, order theorems, triangle inequality) + bit-exact correspondence + range predicate on implementation outputs"),
+ "C08": ("Theorems (exact arithmetic): on a flat window MAD = 0, SD = 0, Bollinger bands collapse, FastStochastic returns the literal 50, TrueRange 0, RateOfChange 0, CCI 0. Refuted for EfficiencyRatio, RSI, MFI, CCI by vm_compute witnesses on the float model (C08_K3..K6) and, for every flat / zero-flow window in exact arithmetic, by C08_K3_er_flat_exact and C08_K5_mfi_zero_flow_exact (the result is 0/0 = NaN); replayed on the implementation and listed as known findings; every other degenerate-window failure is a violation.",
          "Rocq proofs + vm_compute refutation witnesses + flat-stretch enumeration on the implementation with known-finding classification"),
- "C09": ("Theorems: MACD/PPO histogram = line - signal for every number type (no slack); Minimum <= Maximum for any order; over exact reals SD, MAD >= 0 and "
-         "never NaN, BB lower <= average <= upper for multiplier >= 0, SMA/WMA within the range of their window, EMA within the range of its history, "
-         "TrueRange >= 0 for low <= high. KC/CE orderings and float slack: predicate on the implementation (partial).",
+ "C09": ("Theorems: MACD/PPO histogram = line - signal for every number type (no slack); Minimum <= Maximum for any order; over exact reals SD, MAD >= 0 and never NaN, BB lower <= average <= upper for multiplier >= 0, SMA/WMA within the range of their window, EMA within the range of its history, TrueRange and ATR >= 0 for low <= high, KeltnerChannel lower <= average <= upper, ChandelierExit long <= window maximum and short >= window minimum. Float slack: predicate on the implementation (partial).",
          "Rocq proofs (convexity, sums of squares) + bit-exact correspondence + ordering predicates on implementation outputs"),
- "C14": ("Theorems over exact reals: SMA, WMA, SD, MAD, EMA outputs scale by c; SMA, EMA shift by d; for every number type whose negation reverses the "
-         "comparison Maximum(x) = -Minimum(-x) exactly. Remaining indicators and the float tolerances: pairwise comparison of implementation runs (partial).",
-         "Rocq proofs (homogeneity of the specifications; simulation for Max/Min) + bit-exact correspondence + scaled/shifted run comparison on the implementation"),
- "C04": ("Theorems for every number type: reset of any reachable state equals the constructor's state as a record for the 17 indicators without "
-         "Minimum/Maximum inside (C04_reset_is_new), keeps parameters, is idempotent and a no-op on fresh instances; Minimum/Maximum reset is "
-         "observationally equal to new on every continuation for every strict total order with top (C04_min_reset_equiv, C04_max_reset_equiv). "
-         "Correspondence: histories with NaN/inf/extremes and repeated resets, implementation after reset vs fresh implementation vs model.",
+ "C14": ("Theorems over exact reals, for every stream: SMA, WMA, SD, MAD, EMA, MACD, TrueRange, ATR, KeltnerChannel and Bollinger levels scale with c; SMA, EMA, WMA, KC and BB levels shift by d while SD, MAD, MACD, TrueRange, ATR are unchanged; Minimum and Maximum commute with every strictly increasing map; FastStochastic is unchanged by x -> c*x+d (c>0); PPO, ROC, EfficiencyRatio, CCI, MFI are unchanged by c>0 including their division-by-zero cases; for every number type whose negation reverses the comparison Maximum(x) = -Minimum(-x) exactly. SlowStochastic, ChandelierExit, OBV and the float tolerances: pairwise comparison of implementation runs (partial).",
+         "Rocq proofs (homogeneity of the exact specifications; uniqueness of extremes under monotone maps; simulation for Max/Min) + bit-exact correspondence + scaled/shifted run comparison on the implementation"),
+ "C04": ("Theorems for every number type: reset of any reachable state equals the constructor's state as a record for the 17 indicators without Minimum/Maximum inside (C04_reset_is_new), keeps parameters, is idempotent and a no-op on fresh instances; Minimum/Maximum reset is observationally equal to new on every continuation for every strict total order with top (C04_min_reset_equiv, C04_max_reset_equiv), instantiated for binary64 without NaN/-0.0. Correspondence: histories with NaN/inf/extremes and repeated resets, implementation after reset vs fresh implementation vs model.",
          "Rocq proofs (invariant + record equality; order-theoretic bisimulation for Min/Max) + bit-exact correspondence"),
  "C05": ("Theorems about the store model of instances: frame (ops on other instances never change instance i), clone starts from the source's "
          "state, interleavings with other instances are invisible, equal state + equal history gives equal observations. Tied to the code by "
